@@ -125,6 +125,14 @@ def run(prog: Program, res: Result, tier: str) -> None:
         tgt = flow.expand(st.targets[0], flow.cfg.node_for(st), stop=lvs)
         call = flow.expand(st.value, flow.cfg.node_for(st), stop=lvs | {d.var for d in flow.defs if d.kind == "assign" and isinstance(d.value, ast.Call)
                                                                          and (dotted(d.value.func) or "").startswith("self._get")})
+        # np.roll(a, shift, axis) in positional form, whatever was passed by keyword
+        pos_ = list(call.args)
+        for nm_ in ("a", "shift")[len(pos_):]:
+            kw_ = next((k for k in call.keywords if k.arg == nm_), None)
+            if kw_ is None:
+                break
+            pos_.append(kw_.value)
+        call = ast.Call(func=call.func, args=pos_, keywords=[k for k in call.keywords if k.arg not in ("a", "shift")[len(call.args):len(pos_)]])
         # a full-slice store into a view (`profile[:] = ...`) writes the element itself
         while isinstance(tgt, ast.Subscript) and isinstance(tgt.slice, ast.Slice) and tgt.slice.lower is None \
                 and tgt.slice.upper is None and tgt.slice.step is None:
